@@ -6,10 +6,15 @@
 // it traps a second thread entering while one is inside (CORRUPT) and can widen the window between two bytes.
 // What this driver shows is a SAMPLE of the real interleavings, never all of them.
 //
-// case:   <out|err> <c0,c1,...> <dist> <mode> <seed> [ord] [tsan]
+// case:   <out|err> <c0,c1,...> <dist> <mode> <seed> [ord] [same] [tsan]
 //   c_t   records logged by thread t (2..8 threads)          dist  z|s|m|l|x   payload length distribution
 //   mode  n plain | y yield between bytes | d dwell (the thread inside waits a little for a second one to come in)
 //   ord   append the observed order to an OK observation
+//   same  ALL threads use ONE logger type and ONE severity, every record as a one-expression statement with
+//         nine streamed items (each << move-constructs the statement's stream object): whatever a logger type
+//         shares between statements of the same severity is hit by all threads at once.  Without `same`
+//         even/odd threads use two logger types and the statements rotate over three forms and severities.
+//   In every case the CONTENT of each record is checked byte for byte (thread, seq, length, checksum, payload).
 // observation (first defect found, fixed precedence):
 //   OK c0,c1,...   [ORDER t:seq,...]  |  CORRUPT | RACE | INTERLEAVED | DUPLICATED | LOST | REORDERED
 #include "common.hpp"
@@ -218,14 +223,26 @@ void log_one(unsigned t, unsigned seq, const std::string& p)
     }
 }
 
+template <typename L>
+void log_same(unsigned t, unsigned seq, const std::string& p)
+{
+    // one expression, nine items: eight moved-from temporaries die at the end of the full expression
+    L::info() << "<" << t << "," << seq << "," << p.size() << "," << checksum(p) << ":" << p << ">\n";
+}
+
 template <typename LA, typename LB>
-void worker(unsigned t, unsigned count, unsigned seed, char dist, std::atomic<int>* ready, std::atomic<bool>* go)
+void worker(unsigned t, unsigned count, unsigned seed, char dist, bool same, std::atomic<int>* ready, std::atomic<bool>* go)
 {
     std::vector<std::string> ps;
     ps.reserve(count);
     for (unsigned s = 0; s < count; s++) ps.push_back(payload(seed, t, s, dist));
     ready->fetch_add(1);
     while (!go->load()) std::this_thread::yield();
+    if (same)
+    {
+        for (unsigned s = 0; s < count; s++) log_same<LA>(t, s, ps[s]);
+        return;
+    }
     for (unsigned s = 0; s < count; s++)
     {
         // even threads use logger type A, odd threads type B: two sink objects of the same class
@@ -250,8 +267,14 @@ std::string run_case(const std::vector<std::string>& w0)
 {
     // a trailing word `tsan` only routes the case to the ThreadSanitizer build (props/C09.py)
     std::vector<std::string> w = w0;
-    if (!w.empty() && w.back() == "tsan") w.pop_back();
-    if (w.size() < 5 || w.size() > 6 || (w[0] != "out" && w[0] != "err") || w[2].size() != 1 || w[3].size() != 1)
+    bool want_order = false, same = false;
+    while (w.size() > 5 && (w.back() == "tsan" || w.back() == "ord" || w.back() == "same"))
+    {
+        if (w.back() == "ord") want_order = true;
+        if (w.back() == "same") same = true;
+        w.pop_back();
+    }
+    if (w.size() != 5 || (w[0] != "out" && w[0] != "err") || w[2].size() != 1 || w[3].size() != 1)
         return "BADCASE";
     bool to_out = w[0] == "out";
     std::vector<unsigned> counts;
@@ -260,7 +283,6 @@ std::string run_case(const std::vector<std::string>& w0)
     if (n < 1 || n > 16) return "BADCASE";
     char dist = w[2][0], mode = w[3][0];
     unsigned seed = static_cast<unsigned>(std::stoul(w[4]));
-    bool want_order = w.size() == 6 && w[5] == "ord";
 
     // expected bytes in total
     std::size_t total = 0, nrec = 0;
@@ -283,9 +305,9 @@ std::string run_case(const std::vector<std::string>& w0)
         for (unsigned t = 0; t < n; t++)
         {
             if (to_out)
-                th.emplace_back(worker<out_a, out_b>, t, counts[t], seed, dist, &ready, &go);
+                th.emplace_back(worker<out_a, out_b>, t, counts[t], seed, dist, same, &ready, &go);
             else
-                th.emplace_back(worker<err_a, err_b>, t, counts[t], seed, dist, &ready, &go);
+                th.emplace_back(worker<err_a, err_b>, t, counts[t], seed, dist, same, &ready, &go);
         }
         while (ready.load() < static_cast<int>(n)) std::this_thread::yield();
         go.store(true);
